@@ -19,7 +19,9 @@ I_NeverTwice == \A s \in S : IsSet(M1(d, cov, s))
 I_M1 == \A s \in S : CtmExactAt(d, cov, s) <=> Once(d, M1(d, cov, s))
 (* coverage only grows *)
 Monotone == [][\A s \in S : \A dn \in Dirs : \A q \in S : cov[s][dn][q] <= cov'[s][dn][q]]_vars
-(* ONE sweep of the four sequential moves, in ANY order, makes a finite environment exact; the simultaneous pair needs as many rounds as expand_outward_ *)
+(* COVERAGE: one sweep of the four sequential moves, in ANY order, lets every tensor stand for its whole region; the simultaneous pair needs as many rounds as       *)
+(* expand_outward_.  (For the implementation complete coverage is necessary for exact values, not sufficient: projectors computed from a partially built environment *)
+(* keep only the directions that environment needs - see TracePepsEnv!CtmuExpected.)                                                                                   *)
 Perms4 == {p \in [1..4 -> {"l", "r", "t", "b"}] : \A i, j \in 1..4 : i # j => p[i] # p[j]}
 RECURSIVE Rounds(_, _)
 Rounds(ms, n) == IF n = 0 THEN <<>> ELSE ms \o Rounds(ms, n - 1)
